@@ -75,3 +75,11 @@ func HarnessSyncCandidate(log *zerolog.Logger, id int32, lastBlock int32) *Peer 
 	p.startingHeight = lastBlock
 	return p
 }
+
+// HarnessOutstandingGetHeaders: a getheaders request to this peer has been sent and not yet answered
+// (the duplicate-request filter remembers it).
+func HarnessOutstandingGetHeaders(p *Peer) bool {
+	p.prevGetHdrsMtx.Lock()
+	defer p.prevGetHdrsMtx.Unlock()
+	return p.prevGetHdrsBegin != nil
+}
